@@ -424,7 +424,8 @@ class C13(PropertyCheck):
                  "ModelProcessor.transpile composes the code; device tables and the shape of transpile regenerated from the "
                  "source with ast; theorems for all register sizes and all circuits by induction through the stages; "
                  "decidable facts about the regenerated tables by kernel evaluation; gate-for-gate correspondence with "
-                 "processor.transpile for the four devices")
+                 "processor.transpile for the four devices, incl. systematic multi-gate circuits, histories of calls in one "
+                 "process and circuits whose register differs from the processor's")
     level_text = ("Theorems about the model of ModelProcessor.transpile AFTER fixes/C13-1.patch (gates on more than two qubits "
                   "are decomposed before routing), for every register size N, the four devices and every circuit of library "
                   "gates on distinct in-range qubits: the output contains only native gates and GLOBALPHASE/IDLE markers; any "
@@ -436,8 +437,16 @@ class C13(PropertyCheck):
                   "the conversion of gate types (routing_stage_den); no hypothesis about matrices is left. The code as found "
                   "violates the coupling clause for three-qubit gates (counter-examples decided by the kernel and confirmed on "
                   "the real code); for circuits without them the clause is proved for the code as found as well "
-                  "(transpile_coupled_partial). Model and code are compared gate for gate: every placement of every library "
-                  "gate on 1-5 qubits on each device, random circuits, malformed circuits.")
+                  "(transpile_coupled_partial). The circuit's register against the processor's (transpileD; flags regenerated, "
+                  "size_tie): with fixes/C13-2 a circuit on more qubits than the processor is refused (transpile_refuses_large) "
+                  "and for a circuit on N <= M qubits every output gate acts on qubits the DEVICE with M qubits couples "
+                  "(transpile_coupled_device), same unitary (transpile_den_device); for the code as found this holds when N = M "
+                  "or N < M and the device is not the ring (transpile_coupled_device_partial), counter-examples "
+                  "C13_counterexample_small_circuit_on_ring / _large_circuit confirmed on the real code. Model and code are "
+                  "compared gate for gate: every placement of every library gate on 1-5 qubits on each device, systematic "
+                  "circuits that use a pair of qubits more than once (every pair, every device), histories of 3-5 transpile "
+                  "calls in one process, circuits with qc.N != num_qubits, random circuits, malformed circuits; fields of the "
+                  "emitted gate objects (control_value, classical condition, label vs angle) compared.")
     level_note = ("Trusted: Lean kernel (propext, Classical.choice, Quot.sound); py/translate/devices.py (ast extraction of "
                   "native_gates / topology_map / transpile, cross-checked against the live objects every run) and "
                   "py/translate/decomp.py; the harness py/props/c13.py. transpile_den composes C03.resolve_den_partial and "
@@ -445,17 +454,21 @@ class C13(PropertyCheck):
                   "from C03's exact angle representation).")
     trusted_base = [
         "Lean 4.33 kernel; axioms propext, Classical.choice, Quot.sound; decide / decide +kernel for table facts and counter-examples",
-        "py/translate/devices.py (ast: native_gates literals, topology_map setup strings, the two recognised shapes of transpile), "
-        "cross-checked against processor.native_gates / processor.topology_map every run",
+        "py/translate/devices.py (ast: native_gates literals, topology_map setup strings incl. the branch for smaller "
+        "circuits, the recognised shapes of transpile: with/without pre-decomposition, with/without size check), "
+        "cross-checked against processor.native_gates / processor.topology_map / a live size probe every run",
         "py/translate/decomp.py (rule templates, as for C03)",
         "the models of C07 (Model/Route.lean) and C03 (Model/Decompose.lean), tied to the code by their own correspondences "
         "and again here through the composed output",
         "py/props/c13.py harness",
     ]
     assumptions = ["circuits consist of gates without classical controls and contain no measurement (resolve_gates refuses those)",
+                   "while the source has no size check (fixes/C13-2 not applied): the circuit has the processor's size, or is "
+                   "smaller and the device is not the ring (recorded finding otherwise)",
                    "transpile_den: a PHASEGATE with a fixed angle is a multiple of pi/4 (C03's phOK); symbolic angles unrestricted"]
-    rule = ("case = (device, register size, gate list with placements and exact/symbolic angles); distinct by canonical JSON; "
-            "non-trivial = the circuit is rewritten or refused (output differs from the input list)")
+    rule = ("case = (device, register size of the circuit[, of the processor], gate list with placements and exact/symbolic "
+            "angles) or a history of such calls in one process; distinct by canonical JSON; non-trivial = the circuit is "
+            "rewritten or refused (output differs from the input list)")
 
     # ---------------------------------------------------------------------------------
     def regenerate(self, ctx):
